@@ -159,9 +159,9 @@ def run(ctx, replay=None):
                                              'trusted_base': common.TRUSTED_BASE, 'explanation': 'build failed'}, [])
         return
     po = common.proof_obligations(ctx.prop)
-    ck = common.coqchk(ctx.prop) if ctx.tier == 'thorough' else None
-    if ck is not None and not ck['ok']:
-        path = common.write_replay(ctx, 'coqchk', {'kind': 'coqchk-failed', 'summary': ck['summary']})
+    chk_res = common.coqchk(ctx.prop) if ctx.tier == 'thorough' else None
+    if chk_res is not None and not chk_res['ok']:
+        path = common.write_replay(ctx, 'coqchk', {'kind': 'coqchk-failed', 'summary': chk_res['summary']})
         common.violation(ctx, path, found_input=False)
     bad = common.hygiene()
     n_obl = len(po['theorems'])
@@ -351,7 +351,7 @@ def run(ctx, replay=None):
         'obligations': n_obl, 'discharged': discharged,
         'checker_cmd': 'coqc %s %s  (after ./build.sh: coq_makefile + make, full .vo)' % (' '.join(common.COQFLAGS), po['file']),
         'trusted_base': common.TRUSTED_BASE + ['Print Assumptions: ' + '; '.join('%s: %s' % (t, po['assumptions'].get(t, 'NOT PRINTED')) for t in po['theorems'])],
-        'coqchk': ({'axioms': ck['axioms'], 'ok': ck['ok']} if ck else 'thorough tier only'), 'theorems': po['theorems'], 'axioms': axioms, 'hygiene_hits': bad,
+        'coqchk': ({'axioms': chk_res['axioms'], 'ok': chk_res['ok']} if chk_res else 'thorough tier only'), 'theorems': po['theorems'], 'axioms': axioms, 'hygiene_hits': bad,
         'evaluations': len(progs), 'distinct_nontrivial': nontrivial,
         'rule': 'programs drawn by harness/gen.py from profiles %s with seed %d (plus corpus); non-trivial = accepted with >= 3 model assertions, or rejected; distinct by full program text' % (cfg['profiles'], ctx.seed),
         'samples': samples,
